@@ -1104,12 +1104,23 @@ def filter_is_zero_cost_primitive(language: Language, t: pydsdl.PrimitiveType) -
 
 def _float_division_expr(value: fractions.Fraction) -> str:
     """
-    Renders a non-integral rational as a C expression of type double. Normally this is the exact division
-    "(N.0 / D.0)"; when an operand is too large to be a double constant itself (e.g. the denominator of a subnormal
-    such as 2.2250738585072014e-308 is about 5e323: compilers reject or evaluate such a constant to infinity) the
-    correctly rounded value is rendered instead using its shortest round-trip decimal form.
+    Renders a non-integral rational as a C expression of type double. This is the exact division "(N.0 / D.0)" when
+    both operands are exactly representable as a double: the division is then a single, correctly rounded IEEE
+    operation. Otherwise each operand would be rounded before the division (the result can then be two units in the
+    last place away from the rational) or would not be a valid double constant at all (e.g. the denominator of
+    2.2250738585072014e-308 is about 5e323), so the correctly rounded value is rendered instead using its shortest
+    round-trip decimal form, which is a valid C and C++ floating constant.
     """
-    limit = 2**1023
-    if abs(value.numerator) < limit and value.denominator < limit:
+    if _is_exact_double(value.numerator) and _is_exact_double(value.denominator):
         return "({}.0 / {}.0)".format(value.numerator, value.denominator)
     return repr(float(value))
+
+
+def _is_exact_double(x: int) -> bool:
+    """
+    True if the integer is exactly representable as an IEEE 754 binary64 value.
+    """
+    try:
+        return int(float(x)) == x
+    except OverflowError:
+        return False
